@@ -6,7 +6,14 @@ import z3
 from .values import (Builtin, BoundMethod, ClassRef, ExtRef, FuncVal, ModuleRef, NativeFn, Obj, PyRaise, SBool,
                      SInt, SReal, Stacked, SymMap, TupleT, U, UVal, Unsupported)
 
-NUM =(bool, int, float, SBool, SInt, SReal)
+NUM = (bool, int, float, SBool, SInt, SReal)
+
+
+class JDual:
+    """dual number primal + eps * tangent"""
+
+    def __init__(self, p, t):
+        self.p, self.t = p, t
 
 
 def is_num(v):
@@ -156,6 +163,8 @@ class OpsMixin:
             return a | b
         if op == "Mod" and isinstance(a, str):
             return "<fmt>"
+        if isinstance(a, JDual) or isinstance(b, JDual):
+            return self.dual_binop(op, a, b)
         if is_num(a) and is_num(b):
             return self.num_binop(op, a, b)
         if isinstance(a, Stacked) or isinstance(b, Stacked):
@@ -166,6 +175,26 @@ class OpsMixin:
             f = self.ctx.fn("u_" + op, U, U, U)
             return UVal(f(self.to_u(a), self.to_u(b)))
         raise Unsupported(f"binop {op} on {type(a).__name__}, {type(b).__name__}")
+
+    def dual_binop(self, op, a, b):
+        """forward-mode dual numbers (used by the model of jax.jvp on arithmetic lambdas; assumption A7)"""
+        def coerce(x):       # an opaque array entering real arithmetic is read as a real number
+            return SReal(self.ctx.fn("as_real", U, z3.RealSort())(x.t)) if isinstance(x, UVal) else x
+        a, b = coerce(a), coerce(b)
+        pa, ta = (a.p, a.t) if isinstance(a, JDual) else (a, 0.0)
+        pb, tb = (b.p, b.t) if isinstance(b, JDual) else (b, 0.0)
+        if not (is_num(pa) and is_num(pb)):
+            raise Unsupported("dual arithmetic on non-reals")
+        B = self.num_binop
+        if op == "Add":
+            return JDual(B("Add", pa, pb), B("Add", ta, tb))
+        if op == "Sub":
+            return JDual(B("Sub", pa, pb), B("Sub", ta, tb))
+        if op == "Mult":
+            return JDual(B("Mult", pa, pb), B("Add", B("Mult", ta, pb), B("Mult", pa, tb)))
+        if op == "Div" and not isinstance(b, JDual):
+            return JDual(B("Div", pa, pb), B("Div", ta, pb))
+        raise Unsupported(f"dual arithmetic {op}")
 
     def num_binop(self, op, a, b):
         conc = z3.And(conc_of(a), conc_of(b))
